@@ -4,7 +4,8 @@ Lattice explorer on ``SpecialPerturbations._differentialEquation`` (total, per-t
 direct lattices on every anchored helper: Cunningham V/W and single-coefficient accelerations, coefficient loading,
 third-body / SRP / relativity formulae, visible-Sun fraction, Chebyshev ephemerides (continuity over every segment edge
 of the Earth-orientation span on a coarse (84 s) and a fine (1 ulp of the Julian date .. 10 s, both sides) lattice, own
-Chebyshev evaluation, series index / argument consistency, analytic Sun / Moon) and the constants the model uses.
+Chebyshev evaluation, series index / argument consistency, batched-epoch calls in every order / multiplicity / container
+against the single-epoch call, analytic Sun / Moon) and the constants the model uses.
 Reference: ``verif/oracles/force_ref.py`` (algorithmically disjoint, see its docstring).
 """
 from __future__ import annotations
@@ -45,16 +46,27 @@ RULE = (
     "altitude x latitude x longitude x epoch) and every (third-body subset x SRP x GR x altitude x Sun-geometry class x "
     "epoch) against point mass + geopotential gradient + direct third-body + cannonball SRP x visible fraction + "
     "Schwarzschild term, each present exactly when configured; term: difference of two evaluations that differ in one "
-    "switch equals the oracle term; batch: (6,K) layouts with every state in every column equal the K=1 result; direct "
+    "switch equals the oracle term; batch: (6,K) layouts with every state in every column equal the K=1 result, and every "
+    "ordered K-tuple with repeats (K = 2..4) of three states of different shadow class / altitude + every permutation of "
+    "four (first and last column alike with a different one between them, descending, doubled), every column against "
+    "its K=1 evaluation and the reference; direct "
     "lattices on V/W, single-coefficient accelerations (every m<=n<=N), coefficient loading (every row of every file), "
     "third-body / relativity / SRP formulae, visible-Sun fraction through umbra/penumbra/sunlit, Chebyshev ephemerides at "
     "every series boundary (4/8/16/32-day) of every segment and body in 2014-01-01..2022-10-04, at boundary +/- {1 ulp of "
     "the Julian date = 4e-5 s, 1e-4, 1e-3, 0.02, 0.1, 0.5, 2, 10, 84.375, 168.75} s and the boundary itself (continuity "
     "by second and first differences, own evaluation, series index/argument reconstruct the epoch, scalar/vector path); "
+    "batched epochs: for each of the 5 bodies' getPosition and each of the 14 kernel segments' getSegmentPosition (and the "
+    "input scaling), over a pool of 13 (thorough 25) epochs around a 32-day kernel edge that holds, for every series length, "
+    "epochs of one series and of other series: every ordered tuple with repeats of length 1, 2, 3, every 4-tuple of a "
+    "5-epoch and 5-tuple of a 3-epoch sub-pool, the whole pool ascending / descending / rotated / interleaved / palindrome "
+    "/ doubled, and list / tuple / ndarray / strided and reversed views / 0-d array / numpy scalar / float containers - "
+    "each row bitwise equal to the single-epoch call and within the own-evaluation tolerance of the reference, shape "
+    "(N,3) | (3,), input untouched; "
     "the epoch alphabet of the total/term lattices contains instants 1 ulp / 1 ms / 50 ms / 0.3 s / 1 s before and 1 ms / "
     "50 ms after a 4-, 16- and 32-day series boundary; analytic Sun/Moon on "
     "a 6-hour grid, constants. non-trivial = the configuration has at least one perturbation beyond J2 (total), the "
-    "oracle term exceeds 100x the comparison tolerance (term), K>=2 (batch), n>=2 (V/W), m>=1 or n>=3 (single "
+    "oracle term exceeds 100x the comparison tolerance (term), K>=2 (batch), N>=2 epochs (batched epochs), n>=2 (V/W), "
+    "m>=1 or n>=3 (single "
     "coefficients, coefficient loading), "
     "partial or full occultation (fraction), instants at / next to a segment edge (ephemerides), every grid instant "
     "(analytic), every formula / constant case (direct, constants). distinct by construction (lattice points)."
